@@ -50,12 +50,14 @@ func phasesFor(prop string) []phaseDef {
 		}
 	case "C19":
 		return []phaseDef{
-			{"race", "race", 20000, 250000, func(r *Rng, i int) []*Scenario { return genSched(r, "race") }},
+			{"race", "race", 16000, 250000, func(r *Rng, i int) []*Scenario { return genSched(r, "race") }},
+			{"cold", "race", 2400, 40000, func(r *Rng, i int) []*Scenario { return genSched(r, "cold") }},
 			{"dense", "dense", 0, 60000, func(r *Rng, i int) []*Scenario { return genSched(r, "dense") }},
 		}
 	case "C20":
 		return []phaseDef{
 			{"writer-enum", "plain", 3000, 50000, func(r *Rng, i int) []*Scenario { return genSink(r) }},
+			{"interleaved", "steps", 6000, 100000, func(r *Rng, i int) []*Scenario { return genSinkInterleaved(r) }},
 		}
 	}
 	return nil
@@ -331,6 +333,25 @@ func genSink(r *Rng) []*Scenario {
 	return out
 }
 
+// genSinkInterleaved: 2-4 Format tasks (some with failing writers) over one
+// shared tree under a PRNG-decided interleaving.
+func genSinkInterleaved(r *Rng) []*Scenario {
+	out := genSched(r, "interleaved")
+	for _, s := range out {
+		s.Property = "C20"
+		for i := range s.Tasks {
+			t := &s.Tasks[i]
+			if t.Kind != "format" {
+				*t = TaskScn{Kind: "format"}
+				if r.Chance(0.25) {
+					t.Writer = &WriterScn{Flavour: r.Pick([]string{"writer", "stringwriter"}), FailAt: r.Intn(30), ByteBudget: -1}
+				}
+			}
+		}
+	}
+	return out
+}
+
 // ---- evaluation --------------------------------------------------------------
 
 // evaluate runs one scenario and updates the statistics.  It is a pure
@@ -427,7 +448,13 @@ func evaluate(s *Scenario, st *runStats) (fail *Failure) {
 			nontrivial = obs.Prunes+obs.Aborts+obs.NestedWalks > 0 || s.Walk.View != "default" || s.Walk.PreNil || s.Walk.PostNil
 		}
 	case "C19":
-		f, obs := checkC19(s)
+		var f *Failure
+		var obs *schedObs
+		if s.Phase == "cold" && !coldChild {
+			f, obs = runColdChild(s)
+		} else {
+			f, obs = checkC19(s)
+		}
 		fail = f
 		st.Faults["preemption"] += obs.Switches
 		for _, t := range obs.Triples {
@@ -461,6 +488,32 @@ func evaluate(s *Scenario, st *runStats) (fail *Failure) {
 			st.SchedDigests[h] = struct{}{}
 		}
 	case "C20":
+		if s.Phase == "interleaved" {
+			// concurrent Format calls on one tree: "the same bytes every time"
+			f, obs := checkC19(s)
+			if f != nil {
+				ids := append([]string{f.Check}, f.Also...)
+				fail = nil
+				for _, id := range ids {
+					switch id {
+					case "result", "sequential-nondeterminism":
+						fail = &Failure{Check: "determinism", Observed: "interleaved Format calls: " + f.Observed, Expected: f.Expected}
+					case "shared-tree-touched":
+						fail = &Failure{Check: "tree-touched", Observed: "interleaved Format calls: " + f.Observed}
+					case "panic":
+						fail = &Failure{Check: "panic", Observed: f.Observed}
+					}
+					if fail != nil {
+						break
+					}
+				}
+			}
+			st.Faults["preemption"] += obs.Switches
+			st.Probes["interleaved_format_scenarios"]++
+			nontrivial = obs.Switches > 0
+			st.Outcome = uint64(obs.Switches)
+			break
+		}
 		var obs *sinkObs
 		fail = guard("panic", func() *Failure {
 			f, o := checkC20(s)
